@@ -558,6 +558,22 @@ func init() {
 		hname("vCondParked"): func(e *Engine, fn *ssa.Function, a []Value) Value {
 			return e.intConst(e.ghostOf(a[0].(Ptr).c).waiters)
 		},
+		hname("vGuardedBy"): func(e *Engine, fn *ssa.Function, a []Value) Value {
+			field := a[0].(IfaceV).v.(Ptr).c
+			lock := a[1].(IfaceV).v.(Ptr).c
+			// descend through wrapper structs to the embedded sync mutex (where the ghost lives)
+			for lock != nil && lock.kids != nil {
+				if n, ok := lock.typ.(*types.Named); ok && n.Obj().Pkg() != nil && n.Obj().Pkg().Path() == "sync" {
+					break
+				}
+				lock = lock.kids[0]
+			}
+			if e.guards == nil {
+				e.guards = map[*Cell]guardInfo{}
+			}
+			e.guards[field] = guardInfo{lock: lock, name: a[2].(StringV).s}
+			return nil
+		},
 		hname("vMustNotBlock"): func(e *Engine, fn *ssa.Function, a []Value) Value {
 			e.noBlockMsg = a[0].(StringV).s
 			return nil
